@@ -28,6 +28,7 @@ type Program struct {
 	keyOfFn  map[*ssa.Function]string
 	allFuncs map[*ssa.Function]bool
 	constErr map[*ssa.Global]bool
+	Known    []KnownFinding
 }
 
 func (p *Program) strLit(s string) string {
